@@ -5,7 +5,7 @@ anchored in a touched file (plus the property the refactoring was aimed at). Eve
 import sys, os, json, subprocess, glob, re, time
 from concurrent.futures import ThreadPoolExecutor
 VERIF = os.path.dirname(os.path.dirname(os.path.abspath(__file__)))
-D = sys.argv[1]
+D = os.path.abspath(sys.argv[1])
 notes = {n["file"]: n for n in json.load(open(os.path.join(D, "notes.json")))}
 FILEMAP = [
  ("nn_states/neural_state", "C03 C05 C06 C07 C11 C12 C13 C14 C19 C20"), ("rbm/", "C01 C02 C03 C05 C06 C14 C20"),
